@@ -7,7 +7,7 @@
         fact value makes the property fail -- kept as regression witnesses. *)
 From Coq Require Import List NArith ZArith QArith Bool Lia.
 From MxlBase Require Import ListX.
-From Codegen Require Import Codegen CodegenSpec ExpectedFacts CgInst CodegenProofs.
+From Codegen Require Import Codegen CodegenSpec CallArity ExpectedFacts CgInst CodegenProofs CallArityProofs.
 Import ListNotations.
 
 (** what the extractor read from the snapshot (before fixes/C07-*.diff) *)
@@ -337,3 +337,196 @@ Lemma snapshot_py_templates_refuted :
   /\ (exists p, generateQ snapshot_facts Py w_twovars_one_eq [14%N] [] = GOk p
                 /\ outcome_eqb (execQ snapshot_facts Py p 0 [3; 5] []) (RScalar (-6)) = true).
 Proof. split; eexists; repeat split; vm_compute; reflexivity. Qed.
+
+(** ======================================================================================
+    the argument binding of fn_to_sympy (CallArity.v): the general theorems at the form the tree
+    has ([bk] = C07_expected_bind, pinned by C07_bind_fact_pinned), witnesses for the other forms *)
+Lemma expected_bind_not_lax : C07_expected_bind <> BkLaxNonEmpty.
+Proof. discriminate. Qed.
+Lemma expected_bind_not_unknown : C07_expected_bind <> BkUnknown.
+Proof. discriminate. Qed.
+
+Lemma bind_guard (bk : bind_kind) (A : Type) (acts : list A) :
+  bk <> BkLaxNonEmpty -> bk <> BkUnknown -> acts <> [] \/ bk = BkStrict ->
+  bk = BkStrict \/ (bk = BkStrictNonEmpty /\ acts <> []).
+Proof. intros H1 H2 [H | H]; destruct bk; try congruence; auto. Qed.
+
+Lemma call_closed_pinned (bk B : bind_kind) : bk <> BkLaxNonEmpty -> bk <> BkUnknown -> B = bk ->
+  forall (V : Type) (f : pyfn V) (acts : list (texp V)) (r : texp V),
+    acts <> [] \/ bk = BkStrict ->
+    translate_call V B f acts = Some r ->
+    forall n, In n (syms V r) -> exists a, In a acts /\ In n (syms V a).
+Proof. intros H1 H2 -> V f acts r G. apply call_closed. apply bind_guard; assumption. Qed.
+
+Lemma call_sound_pinned (bk B : bind_kind) : bk <> BkLaxNonEmpty -> bk <> BkUnknown -> B = bk ->
+  forall (V : Type) (vadd vsub vmul : V -> V -> V) (f : pyfn V) (acts : list (texp V)) (r : texp V)
+         (env : name -> option V) (vs : list V),
+    acts <> [] \/ bk = BkStrict ->
+    translate_call V B f acts = Some r ->
+    map_opt (teval V vadd vsub vmul env) acts = Some vs ->
+    teval V vadd vsub vmul env r = py_call V vadd vsub vmul f vs.
+Proof. intros H1 H2 -> V vadd vsub vmul f acts r env vs G. apply call_sound. apply bind_guard; assumption. Qed.
+
+Lemma call_refused_pinned (bk B : bind_kind) : bk <> BkLaxNonEmpty -> bk <> BkUnknown -> B = bk ->
+  forall (V : Type) (f : pyfn V) (acts : list (texp V)),
+    acts <> [] \/ bk = BkStrict ->
+    length acts <> length (fn_args V f) ->
+    translate_call V B f acts = None.
+Proof. intros H1 H2 -> V f acts G. apply call_refused. apply bind_guard; assumption. Qed.
+
+Lemma entry_closed_pinned (bk B : bind_kind) : bk <> BkLaxNonEmpty -> bk <> BkUnknown -> B = bk ->
+  forall (V : Type) (e : entry V) (r : texp V),
+    (en_nargs V e <> [] /\ forall k acts, en_call V e = Some (k, acts) -> acts <> []) \/ bk = BkStrict ->
+    translate_entry V B e = Some r ->
+    forall n, In n (syms V r) -> In n (en_nargs V e).
+Proof.
+  intros H1 H2 -> V e r G. apply entry_closed.
+  destruct G as [[Ha Hb] | ->]; [| left; reflexivity].
+  destruct bk; try congruence; [left; reflexivity | right; auto].
+Qed.
+
+(** the functions of the table that rely on a default value, a keyword-only parameter or *args
+    (ids 28..35) are refused under either strict form of the binding ... *)
+Definition by_arity_refused : list fnid := [28%N; 29%N; 30%N; 31%N; 32%N; 33%N; 34%N; 35%N].
+
+Lemma by_arity_not_translated (bk : bind_kind) : bk = BkStrict \/ bk = BkStrictNonEmpty ->
+  forall f, In f by_arity_refused -> translatesQ_at bk f = false.
+Proof.
+  intros [-> | ->] f Hf; cbn in Hf;
+    repeat (destruct Hf as [<- | Hf]; [vm_compute; reflexivity |]); destruct Hf.
+Qed.
+
+(** ... so a model that uses one of them -- as the function of a derived quantity, of a reaction or
+    of a computed coefficient -- makes generation raise in all four languages *)
+Lemma default_reliant_raises_pinned (ia : ia_kind) (ut : ut_kind) (F : facts) (bk B : bind_kind) :
+  F = C07_facts ia ut -> bk <> BkLaxNonEmpty -> bk <> BkUnknown -> B = bk ->
+  forall (L : lang) (m : cmodel Q) (order free : list name),
+    NoDup (map fst (m_der m) ++ map fst (m_rxn m)) ->
+    incl (map fst (m_der m) ++ map fst (m_rxn m)) order ->
+    (exists n f a, In (n, (f, a)) (m_der m) /\ In f by_arity_refused)
+    \/ (exists n f a st, In (n, (f, a, st)) (m_rxn m) /\ In f by_arity_refused)
+    \/ (exists n f a st x g ga, In (n, (f, a, st)) (m_rxn m) /\ In (x, CDyn g ga) st /\ In g by_arity_refused) ->
+    forall p, generateQ_at B F L m order free <> GOk p.
+Proof.
+  intros HF H1 H2 -> L m order free ND Hinc Hbad.
+  assert (Hbk : bk = BkStrict \/ bk = BkStrictNonEmpty) by (destruct bk; try congruence; auto).
+  apply (untranslatable_pinned ia ut F HF Q (translatesQ_at bk) L m order free ND Hinc).
+  destruct Hbad as [(n & f & a & H & Hf)|[(n & f & a & st & H & Hf)|(n & f & a & st & x & g & ga & H & Hx & Hf)]].
+  - left. exists n, f, a. split; [exact H | apply by_arity_not_translated; assumption].
+  - right. left. exists n, f, a, st. split; [exact H | apply by_arity_not_translated; assumption].
+  - right. right. exists n, f, a, st, x, g, ga. repeat split; try assumption. apply by_arity_not_translated; assumption.
+Qed.
+
+(** witnesses *)
+Definition e_default_helper : entry Q := mkEntry (mkPyFn [id_a] [] [] false (TSym hole)) (Some (k_scale, [TSym id_a])) (margs 1).
+Definition e_default_inner : entry Q :=
+  mkEntry (mkPyFn [id_a; id_g] [] [] false (TSub (TSym hole) (TSym id_g))) (Some (k_gain, [TSym id_a])) (margs 2).
+Definition e_empty_helper : entry Q := mkEntry (mkPyFn [id_a] [] [] false (TMul (TSym id_a) (TSym hole))) (Some (k_two, [])) (margs 1).
+Definition e_empty_top : entry Q := mkEntry (mkPyFn [] [(n11, 2)] [] false (TMul (TSym n11) (TNum 3))) None (margs 0).
+
+Lemma witness_entries_are_table_entries :
+  arity_entry 28%N = Some e_default_helper /\ arity_entry 29%N = Some e_default_inner
+  /\ arity_entry 36%N = Some e_empty_helper /\ arity_entry 37%N = Some e_empty_top.
+Proof. repeat split. Qed.
+
+(** par n11 = 4; rxn n20 = u_empty_helper(n12) {n12: -1, n13: 1} -- the model returns 18 * ... *)
+Definition w_empty_call : cmodel Q :=
+  mkCM [(11%N, (false, 4))] [12%N; 13%N] []
+       [(20%N, (36%N, [12%N], [(12%N, CStat (-1)); (13%N, CStat 1)]))].
+(** ... rxn n20 = n12 {n12: -1, n13: u_empty_top()} *)
+Definition w_empty_coef : cmodel Q :=
+  mkCM [(11%N, (false, 4))] [12%N; 13%N] []
+       [(20%N, (0%N, [12%N], [(12%N, CStat (-1)); (13%N, CDyn 37%N [])]))].
+Definition w_default_call : cmodel Q :=
+  mkCM [(11%N, (false, 4))] [12%N; 13%N] []
+       [(20%N, (28%N, [12%N], [(12%N, CStat (-1)); (13%N, CStat 1)]))].
+
+Definition env1 (a : Q) (n : option Q) : name -> option Q :=
+  fun k => if N.eqb k 9001%N then Some a else if N.eqb k 11%N then n else None.
+
+(** the tree's form [BkStrictNonEmpty]: a call that passes NO argument skips the binding.
+    u_empty_helper(a) = a * k_two() with k_two(n0011=2.0) = n0011 * 3.0: CPython computes 6a; the
+    "translation" is a * (n0011 * 3) with the helper's parameter left behind: it reads the model
+    component n0011 (4: 12a) or is undefined when there is none -- and generation does NOT raise *)
+Lemma empty_call_leaks_refuted (ia : ia_kind) (ut : ut_kind) : ia <> IaUnknown -> ut <> UtUnknown ->
+  exists r, translate_entryQ BkStrictNonEmpty e_empty_helper = Some r
+            /\ In 11%N (syms Q r) /\ ~ In 11%N (en_nargs Q e_empty_helper)
+            /\ optQ_eqb (py_entryQ e_empty_helper [3]) (Some 18) = true
+            /\ optQ_eqb (tevalQ (env1 3 (Some 4)) r) (Some 36) = true
+            /\ tevalQ (env1 3 None) r = None
+            /\ (exists r', translate_entryQ BkStrictNonEmpty e_empty_top = Some r' /\ In 11%N (syms Q r'))
+            /\ (forall L, exists p, generateQ_at BkStrictNonEmpty (C07_facts ia ut) L w_empty_call [20%N] [] = GOk p)
+            /\ (forall L, exists p, generateQ_at BkStrictNonEmpty (C07_facts ia ut) L w_empty_coef [20%N] [] = GOk p).
+Proof.
+  intros Hia Hut. eexists. split; [vm_compute; reflexivity |].
+  split; [vm_compute; auto |]. split; [vm_compute; intuition discriminate |].
+  split; [vm_compute; reflexivity |]. split; [vm_compute; reflexivity |]. split; [vm_compute; reflexivity |].
+  split; [eexists; split; [vm_compute; reflexivity | vm_compute; auto] |].
+  split; intros L; destruct ia, ut, L; try congruence; eexists; vm_compute; reflexivity.
+Qed.
+
+(** the repaired form [BkStrict]: both are refused and generation raises in every language *)
+Lemma empty_call_raises (ia : ia_kind) (ut : ut_kind) :
+  translate_entryQ BkStrict e_empty_helper = None /\ translate_entryQ BkStrict e_empty_top = None
+  /\ forall L p, generateQ_at BkStrict (C07_facts ia ut) L w_empty_call [20%N] [] <> GOk p
+                 /\ generateQ_at BkStrict (C07_facts ia ut) L w_empty_coef [20%N] [] <> GOk p.
+Proof.
+  split; [vm_compute; reflexivity |]. split; [vm_compute; reflexivity |].
+  intros L p. split.
+  - apply (untranslatable_pinned ia ut _ eq_refl Q (translatesQ_at BkStrict) L w_empty_call [20%N] []).
+    + vm_compute. repeat constructor; intuition discriminate.
+    + vm_compute. intros x [<- | []]. left. reflexivity.
+    + right. left. exists 20%N, 36%N, [12%N], [(12%N, CStat (-1)); (13%N, CStat 1)]. split; [left; reflexivity | vm_compute; reflexivity].
+  - apply (untranslatable_pinned ia ut _ eq_refl Q (translatesQ_at BkStrict) L w_empty_coef [20%N] []).
+    + vm_compute. repeat constructor; intuition discriminate.
+    + vm_compute. intros x [<- | []]. left. reflexivity.
+    + right. right. exists 20%N, 0%N, [12%N], [(12%N, CStat (-1)); (13%N, CDyn 37%N [])], 13%N, 37%N, [].
+      split; [left; reflexivity |]. split; [right; left; reflexivity | vm_compute; reflexivity].
+Qed.
+
+(** regression witness (seeded change C07-6: zip without strict=True, [BkLaxNonEmpty]).
+    u_default_helper(a) = k_scale(a) with k_scale(s, n0011=2.0) = s * n0011: CPython computes 2a, the
+    translation a * n0011 reads the model component (4: 4a) or nothing; u_default_inner(a, g) =
+    k_gain(a) - g with k_gain(s, g=2.0): the helper's leftover g is then replaced by the CALLER's
+    second argument (2a - g becomes a*g - g); generation does not raise *)
+Lemma lax_binding_refuted (ia : ia_kind) (ut : ut_kind) : ia <> IaUnknown -> ut <> UtUnknown ->
+  exists r, translate_entryQ BkLaxNonEmpty e_default_helper = Some r
+            /\ In 11%N (syms Q r)
+            /\ optQ_eqb (py_entryQ e_default_helper [3]) (Some 6) = true
+            /\ optQ_eqb (tevalQ (env1 3 (Some 4)) r) (Some 12) = true
+            /\ tevalQ (env1 3 None) r = None
+            /\ (exists r', translate_entryQ BkLaxNonEmpty e_default_inner = Some r'
+                           /\ optQ_eqb (py_entryQ e_default_inner [3; 5]) (Some 1) = true
+                           /\ optQ_eqb (tevalQ (fun k => if N.eqb k 9001%N then Some 3 else if N.eqb k 9002%N then Some 5 else None) r')
+                                       (Some 10) = true)
+            /\ (forall L, exists p, generateQ_at BkLaxNonEmpty (C07_facts ia ut) L w_default_call [20%N] [] = GOk p)
+            /\ (forall bk, bk = BkStrict \/ bk = BkStrictNonEmpty ->
+                           translate_entryQ bk e_default_helper = None /\ translate_entryQ bk e_default_inner = None).
+Proof.
+  intros Hia Hut. eexists. split; [vm_compute; reflexivity |].
+  split; [vm_compute; auto |]. split; [vm_compute; reflexivity |]. split; [vm_compute; reflexivity |].
+  split; [vm_compute; reflexivity |].
+  split; [eexists; split; [vm_compute; reflexivity |]; split; vm_compute; reflexivity |].
+  split.
+  - intros L; destruct ia, ut, L; try congruence; eexists; vm_compute; reflexivity.
+  - intros bk [-> | ->]; split; vm_compute; reflexivity.
+Qed.
+
+(** non-vacuity: a call that supplies every positional parameter IS translated, closed and with
+    CPython's value (k_scale(a, 3) = a * 3); CPython itself is content with the refused ones *)
+Lemma arity_nonvacuous :
+  (forall bk, bk = BkStrict \/ bk = BkStrictNonEmpty ->
+     exists r, translate_call Q bk k_scale [TSym 9001%N; TNum 3] = Some r
+               /\ syms Q r = [9001%N]
+               /\ optQ_eqb (tevalQ (env1 5 None) r) (Some 15) = true
+               /\ optQ_eqb (py_call Q Qplus Qminus Qmult k_scale [5; 3]) (Some 15) = true)
+  /\ optQ_eqb (py_call Q Qplus Qminus Qmult k_scale [5]) (Some 10) = true
+  /\ length [TSym (V:=Q) 9001%N] <> length (fn_args Q k_scale)
+  /\ optQ_eqb (py_call Q Qplus Qminus Qmult k_star [5; 7; 9]) (Some 10) = true
+  /\ optQ_eqb (py_call Q Qplus Qminus Qmult k_kw [5]) (Some 10) = true
+  /\ py_call Q Qplus Qminus Qmult k_scale [] = None.
+Proof.
+  split.
+  - intros bk [-> | ->]; eexists; (split; [vm_compute; reflexivity |]); repeat split; vm_compute; reflexivity.
+  - repeat split; try (vm_compute; reflexivity). vm_compute. discriminate.
+Qed.
